@@ -384,7 +384,7 @@ class JordanCurve:
         """
         float(angle)
         if degrees:
-            angle *= np.pi / 180
+            angle = angle * np.pi / 180
         for vertex in self.vertices:
             vertex.rotate(angle)
         self.__lenght = None
